@@ -190,6 +190,8 @@ ROUND10 = {
  "C20": " Real-socket run under the paused clock: a peer that floods requests and then neither reads nor writes.",
 }
 ROUND11 = {
+ "C02": " One real-socket run with dials that neither succeed nor fail: the seeder listed in front of eleven hosts with a full listen queue that accept-and-close after 6 s; the download must complete.",
+ "C11": " Held-back flush run: the real connection task over a TcpStream with 4 KiB buffers, 3000 / 6000 announcements held back, the peer reads only after its Unchoke and must decode exactly Have 0..n.",
  "C03": " Piece lengths above 256 KiB.",
  "C04": " Deep paths (31..256 harmless components in front of the parent components).",
  "C06": " Bursts of up to 1000 complete unknown-kind messages in one read.",
